@@ -412,6 +412,8 @@ def run_property(pid, tier):
 
 def _run_property(pid, tier, prop, seed, workdir, evid_path, t0):
     stages = [s for s in prop['stages'] if tier in s.get('tiers', ('quick', 'thorough'))]
+    if os.environ.get('VERIF_ONLY'):  # development aid: run only the stages of one harness
+        stages = [s for s in stages if s['h'] == os.environ['VERIF_ONLY']]
     jobs = []
     for si, st in enumerate(stages):
         jobs += stage_jobs(pid, tier, si, st, seed, workdir)
